@@ -70,7 +70,7 @@ def paths_upto(alpha, n):
 
 
 def exhaustive_histories(tier):
-    bad = [(NEG,), (A, NEG)]
+    bad = [(NEG,), (A, NEG), (NEG, A)]
     def ops_for(plen):
         good = paths_upto([A, B], plen)
         return [("add", p) for p in good + bad] + [("remove", p) for p in good] + \
@@ -102,8 +102,9 @@ def random_history(rng):
                 p = base
         else:
             p = tuple(rng.choice(alpha) for _ in range(rng.randint(0, 4)))
-        if rng.random() < 0.04:
-            p = p + (NEG,)
+        if rng.random() < 0.05:
+            i = rng.randint(0, len(p))      # invalid site at any position
+            p = p[:i] + (NEG,) + p[i:]
         kind = rng.choices(["add", "remove", "exist"], [0.6, 0.3, 0.1])[0]
         h.append((kind, p))
         if kind == "add":
@@ -152,7 +153,7 @@ def run(ctx):
         histories.append(random_history(ctx.rng))
 
     ctx.cov["rule"] = (f"corpus ({n_corpus}) + exhaustive histories of length<=3 over add/remove/exists x paths over a "
-                       f"2-site alphabet (length<=3, plus 2 invalid paths){' + all length-4 histories over paths of length<=2' if tier == 'thorough' else ''} ({n_exh}) + "
+                       f"2-site alphabet (length<=3, plus 3 invalid paths){' + all length-4 histories over paths of length<=2' if tier == 'thorough' else ''} ({n_exh}) + "
                        f"{n_rand} random histories of length 5-40 over a 3-site alphabet biased to prefix-related paths; "
                        "non-trivial = distinct history with >=1 accepted add and (>=1 refused add or accepted remove or eviction)")
     ctx.cov["exhaustive"] = True
